@@ -60,14 +60,20 @@ FamInline ==
     { WithInline(MkCfg(C, NoRst, s[1], s[2], nr, F, F, 0, 0, 2, b)) :
         s \in { <<F, 0>>, <<T, 0>> }, nr \in BOOLEAN, b \in BOOLEAN }
 
+(* 7. points on which a level / reset lambda fails to evaluate, stream and batch *)
+FamErrs ==
+    { WithErrs(MkCfg(h, r, F, 0, F, F, F, 0, 0, 2, b)) :
+        h \in { C, WC }, r \in { <<F, F, T>> }, b \in BOOLEAN }
+MCErrsObs == FamErrs                             \* "erroring-reset-holds"     -> LevelRule
+
 (* observations: named deviations of Impl (constant Variant) must break "their" invariant *)
 MCRestoreObs == FamEmit({C}, Sco2, {2})         \* "restore-from-event-time"  -> EventCarries
 MCBatchFlapObs == FamFlap({C}, Sco2, Flap2, {T}) \* "batch-uses-stream-trigger" -> EmitIff
 MCStatefulObs == FamStateful                     \* "shared-reset-state"        -> LevelRule
 MCInlineObs == FamInline                         \* "stop-at-first-collect-error" -> NamedDelivery
 
-MCQuickAll == MCQuick \cup MCQuickFlap \cup FamStateful \cup FamInline
-ASSUME QuickStatic == LevelRuleStatic /\ FlapNoBoundary /\ ConfigsOK
+MCQuickAll == MCQuick \cup MCQuickFlap \cup FamStateful \cup FamInline \cup FamErrs
+ASSUME QuickStatic == (Variant = {} => LevelRuleStatic) /\ FlapNoBoundary /\ ConfigsOK
 
 ALL == <<T, T, T>>
 FlapS == { <<25, 50, 2>>, <<30, 45, 3>> }
@@ -83,5 +89,5 @@ MCThoroughFlap ==
     FamFlap({C}, Sco3, Flap3, BOOLEAN)
     \cup FamFlap({WC}, Sco3, FlapS, {F}) \cup FamFlap({ALL}, Sco2, { <<25, 50, 2>> }, {F})
     \cup FamFlap({WC}, Sco2, { <<25, 50, 2>> }, {T})
-MCThoroughAll == MCThorough \cup MCThoroughFlap \cup FamStateful \cup FamInline
+MCThoroughAll == MCThorough \cup MCThoroughFlap \cup FamStateful \cup FamInline \cup FamErrs
 =============================================================================
